@@ -107,6 +107,22 @@ fn crypto_kx(
     Ok(())
 }
 
+/// Refuses an all-zero shared secret, which is what a low-order peer public key
+/// produces (libsodium returns -1 in this case).
+fn check_shared_secret(shared_secret: &[u8; CRYPTO_SCALARMULT_BYTES]) -> Result<(), Error> {
+    use subtle::ConstantTimeEq;
+
+    if shared_secret
+        .ct_eq(&[0u8; CRYPTO_SCALARMULT_BYTES])
+        .unwrap_u8()
+        == 1
+    {
+        Err(dryoc_error!("invalid public key (all-zero shared secret)"))
+    } else {
+        Ok(())
+    }
+}
+
 /// Computes client session keys for `rx` and `tx`, using `client_pk`,
 /// `client_sk`, and `server_pk`. Returns unit `()` upon success.
 ///
@@ -121,6 +137,7 @@ pub fn crypto_kx_client_session_keys(
     let mut shared_secret = [0u8; CRYPTO_SCALARMULT_BYTES];
 
     crypto_scalarmult(&mut shared_secret, client_sk, server_pk);
+    check_shared_secret(&shared_secret)?;
 
     crypto_kx(rx, tx, client_pk, server_pk, shared_secret)
 }
@@ -139,6 +156,7 @@ pub fn crypto_kx_server_session_keys(
     let mut shared_secret = [0u8; CRYPTO_SCALARMULT_BYTES];
 
     crypto_scalarmult(&mut shared_secret, server_sk, client_pk);
+    check_shared_secret(&shared_secret)?;
 
     crypto_kx(tx, rx, client_pk, server_pk, shared_secret)
 }
